@@ -10,7 +10,7 @@ func init() { Register(Area{Name: "DListCode", Gen: genDListCode}) }
 var dlistFuncs = []string{"DNode.Next", "DNode.Prev", "DList.Init", "DList.Len", "DList.Front", "DList.Back", "DList.lazyInit",
 	"DList.insert", "DList.insertValue", "DList.remove", "DList.move", "DList.Remove", "DList.PushFront", "DList.PushBack",
 	"DList.InsertBefore", "DList.InsertAfter", "DList.PushFrontNode", "DList.PushBackNode", "DList.InsertNodeBefore",
-	"DList.InsertNodeAfter", "DList.MoveToFront", "DList.MoveToBack", "DList.MoveBefore", "DList.MoveAfter"}
+	"DList.InsertNodeAfter", "DList.MoveToFront", "DList.MoveToBack", "DList.MoveBefore", "DList.MoveAfter", "DList.PushBackDList", "DList.PushFrontDList"}
 
 var dlistShape = map[string]Shape13{
 	"DNode.Next": {}, "DNode.Prev": {}, "DList.Init": {}, "DList.Len": {}, "DList.Front": {}, "DList.Back": {},
@@ -28,6 +28,10 @@ var dlistShape = map[string]Shape13{
 	"DList.MoveToBack":       {Calls: []string{"DList.move"}},
 	"DList.MoveBefore":       {Calls: []string{"DList.move"}},
 	"DList.MoveAfter":        {Calls: []string{"DList.move"}},
+	"DList.PushBackDList": {Loops: 1, Calls: []string{"DList.Front", "DList.Len", "DList.insertValue", "DList.lazyInit", "DNode.Next"},
+		Headers: []string{"i, e := other.Len(), other.Front(); i ? #; i, e = i-1, e.Next()"}},
+	"DList.PushFrontDList": {Loops: 1, Calls: []string{"DList.Back", "DList.Len", "DList.insertValue", "DList.lazyInit", "DNode.Prev"},
+		Headers: []string{"i, e := other.Len(), other.Back(); i ? #; i, e = i-1, e.Prev()"}},
 }
 
 func genDListCode(repo string) (string, error) {
